@@ -51,6 +51,11 @@ def units(tier):
     add(["S2", "R1", "R1"], 0, cancel=1, cancel_by=0)
     add(["S1", "S1", "r2"], 0, cancel=0, cancel_by=2)
     add(["S1", "S1", "R2"], 0, cancel=0, cancel_by=2, native=True)
+    # another task closes a party's clone while that party is blocked on it (the other clones keep the side open)
+    add(["S2", "R1", "R1"], 0, close=1)
+    add(["S2", "R2", "R1"], 1, close=1)
+    add(["S1", "S1", "R2"], 0, close=0)
+    add(["S2", "R2"], "sym", close=1)
     if not quick:
         # every 3-party combination with at least one sender and one receiver, each party cancelled in turn
         import itertools as _it
